@@ -30,7 +30,7 @@ def impl_cfg(consts, invariants):
 
 
 # (name, Shape, MaxSet, MaxFail, MaxSF)
-IMPL_QUICK = [("chain", 1, 2, 1, 1), ("shared", 2, 2, 0, 1)]
+IMPL_QUICK = [("chain", 1, 2, 1, 1), ("subdep", 3, 2, 0, 1)]
 IMPL_THOROUGH = [("chain", 1, 3, 1, 1), ("shared", 2, 3, 1, 1), ("subdep", 3, 3, 1, 1)]
 FAULTS = [("KeyBug", ("chain", 1, 1, 0, 0)), ("StaleBug", ("chain", 1, 2, 0, 1))]
 
@@ -225,8 +225,9 @@ def run(ctx):
         "exercised": dict(sorted(STATS.items())),
         "samples": scripts[:2],
         "exhaustive": False,
-    }, ["one process per script (the module system is a process-wide singleton); the system counts as quiet when no module "
-        "state has changed for 220 ms (more than twice the debounce interval of the manager) and two readings of the records "
+    }, ["one process per script (the module system is a process-wide singleton); the system counts as quiet when for 100 ms no "
+        "worker of the subsystems module (config change handlers, also while they sleep through the debounce interval) or "
+        "of a module (change notifications) has been running, no module state has changed, and two readings of the records "
         "agree; a rejected history is executed again with 2500 ms before it counts",
         "module level steps (Error/Warning/Hint/Resolve, failing start routines) are made in a quiet system only; config "
         "changes also in bursts without waiting (which of them are handled separately is the code's choice, the model allows "
